@@ -422,3 +422,48 @@ Definition rdf_stream_frames (d : rdata) (s : stream) : stream * list tev :=
   | QuadStream => rdf_quads_stream_frames d s
   | GraphStream => rdf_graphs_stream_frames d s
   end.
+
+(* ---------- guess_options / guess_stream and the *_to_frames entry points ---------- *)
+Definition guess_stream_class (logical : N) (quads : bool) : stream_class :=
+  if negb (logical mod 10 =? 3) && quads then QuadStream else TripleStream.
+
+Definition default_params (gen star : bool) : sparams :=
+  {| p_gen := gen; p_star := star; p_delimited := true; p_nd := false; p_name := [] |}.
+
+(* generic: generalized + RDF-star on; rdflib: both off; logical type from the data *)
+Definition guess_options (ig : integ) (quads : bool) : soptions :=
+  let b := match ig with Generic => true | Rdflib => false end in
+  {| so_flow := None; so_frame_size := DEFAULT_FRAME_SIZE; so_logical := if quads then 2 else 1;
+     so_params := default_params b b; so_maxn := 4000; so_maxp := 150; so_maxd := 32 |}.
+
+(* GenericStatementSink.is_triples_sink: bool(store) and len(store[0]) == 3 *)
+Definition is_triples_sink (stmts : list (list term)) : bool :=
+  match stmts with st :: _ => Nat.eqb (length st) 3 | [] => false end.
+
+(* generic flat_stream_to_frames *)
+Definition flat_stream_to_frames (o : option soptions) (stmts : list (list term)) : list tev * option stream :=
+  match stmts with
+  | [] => ([Pull], None)
+  | first :: _ =>
+    let quads := negb (is_triples_sink [first]) in
+    let opts := match o with Some x => x | None => guess_options Generic quads end in
+    match stream_new (guess_stream_class (so_logical opts) quads) Generic opts with
+    | Err e => ([Pull; Raise e], None)
+    | Ok s =>
+      let '(s', evs) := stream_frames {| d_is_sink := false; d_namespaces := []; d_stmts := stmts |} s in
+      (evs, Some s')
+    end
+  end.
+
+(* rdflib flat_stream_to_frames: Dataset() if len(first) == 4 else Graph() *)
+Definition rdf_flat_stream_to_frames (o : option soptions) (d : rdata) : list tev * option stream :=
+  match rd_stmts d with
+  | [] => ([Pull], None)
+  | first :: _ =>
+    let quads := Nat.eqb (length first) 4 in
+    let opts := match o with Some x => x | None => guess_options Rdflib quads end in
+    match stream_new (guess_stream_class (so_logical opts) quads) Rdflib opts with
+    | Err e => ([Pull; Raise e], None)
+    | Ok s => let '(s', evs) := rdf_stream_frames d s in (evs, Some s')
+    end
+  end.
